@@ -1,5 +1,9 @@
 """C07 — the demes always form a well-formed tree; sprout seeds come from the parent."""
+from hypothesis import strategies as st
+
 from ..checkers import C07Checker
+from ..common import Violation, shard_seed
+from ..driver import hyp_drive
 from ..propbase import ScenarioProperty
 
 PROP = "C07"
@@ -10,7 +14,11 @@ RULE = (
     "the last level, started_at consistent; at every sprouting round each returned seed is bit-equal to a member of the parent's "
     "population snapshot (local-method generator: or the best of a just-finished parent), each new child's seed is one the "
     "mechanism returned for its parent, SEA/DE/SHADE children contain the seed in their initial population. Non-trivial = height "
-    "3 reached with >=2 demes on level 1 and >=2 on level 2; distinct = distinct scenario digests."
+    "3 reached with >=2 demes on level 1 and >=2 on level 2; distinct = distinct scenario digests. Registry tier: sequences of 2-3 "
+    "trees over level-config objects of user-defined config classes (reused between trees or fresh), each tree registering its "
+    "own deme class per config class: at every boundary of every tree each deme's type is exactly the class that tree's config "
+    "registers for its level's config class (non-trivial = the registration "
+    "changes between two trees that share config objects)."
 )
 ASSUMPTIONS = ["sprouting rounds are observed through a pass-through wrapper around the configured sprout mechanism"]
 
@@ -47,10 +55,133 @@ P_TIES = ScenarioProperty(
 )
 
 
+# third tier ("registry"): "each deme is of the engine configured for its level ... custom deme classes registered through
+# the config". A sequence of 2-3 trees is built over level-config objects of user-defined config classes (a BaseLevelConfig
+# subclass as in docs/custom_demes.rst, a subclass of EALevelConfig), each tree's TreeConfig registering its OWN choice of
+# deme class per config class; level-config objects are reused between the trees or built afresh. At every metaepoch
+# boundary of every tree each deme's type must be exactly the class THAT tree's config registers for type(level config)
+# (the shipped class for shipped config classes) and none of the classes registered only by the other trees.
+S_VARIANT = st.integers(0, 2)
+
+
+@st.composite
+def registry_cases(draw):
+    nlev = draw(st.integers(1, 3))
+    levels = [draw(st.sampled_from(["plain", "plain", "easub", "ea"])) for _ in range(nlev)]
+    ntrees = draw(st.integers(2, 3))
+    trees = []
+    for _ in range(ntrees):
+        trees.append(
+            {
+                "plain": draw(S_VARIANT),
+                "easub": draw(S_VARIANT),
+                "reuse_configs": draw(st.sampled_from([True, True, True, False])),
+                "steps": draw(st.integers(1, 4)),
+                "seed": draw(st.integers(0, 2**31 - 1)),
+            }
+        )
+    return {"levels": levels, "trees": trees, "pop": draw(st.integers(3, 6))}
+
+
+def _registry_classes():
+    global _REG
+    if _REG is not None:
+        return _REG
+    from pyhms.config import BaseLevelConfig, EALevelConfig
+    from pyhms.demes.ea_deme import EADeme
+
+    from ..harness import RandomSearchDeme
+
+    class PlainConfig(BaseLevelConfig):
+        def __init__(self, problem, lsc, pop_size):
+            super().__init__(problem, lsc)
+            self.pop_size = pop_size
+
+    class SubEAConfig(EALevelConfig):
+        pass
+
+    plain = [type(f"PlainDeme{i}", (RandomSearchDeme,), {}) for i in range(3)]
+    easub = [type(f"SubEADeme{i}", (EADeme,), {}) for i in range(3)]
+    _REG = (PlainConfig, SubEAConfig, plain, easub)
+    return _REG
+
+
+_REG = None
+
+
+def check_registry(case):
+    import numpy as np
+    from pyhms.config import EALevelConfig, TreeConfig
+    from pyhms.core.problem import FunctionProblem
+    from pyhms.demes.ea_deme import EADeme
+    from pyhms.sprout import get_simple_sprout
+    from pyhms.stop_conditions import DontStop, MetaepochLimit
+    from pyhms.tree import DemeTree
+
+    PlainConfig, SubEAConfig, plain, easub = _registry_classes()
+    box = np.array([[-5.0, 5.0]] * 2)
+    problem = FunctionProblem(lambda x: float(np.sum(np.asarray(x) ** 2)), bounds=box, maximize=False)
+
+    def make_level(kind):
+        if kind == "plain":
+            return PlainConfig(problem, DontStop(), case["pop"])
+        cls = SubEAConfig if kind == "easub" else EALevelConfig
+        return cls(pop_size=case["pop"], problem=problem, lsc=DontStop(), generations=1, mutation_std=0.5, sample_std_dev=0.3)
+
+    vs, info = [], {"nontrivial": False, "labels": []}
+    shared = [make_level(k) for k in case["levels"]]
+    prev = None
+    for ti, t in enumerate(case["trees"]):
+        levels = shared if t["reuse_configs"] else [make_level(k) for k in case["levels"]]
+        registry = {PlainConfig: plain[t["plain"]], SubEAConfig: easub[t["easub"]]}
+        want = {"plain": plain[t["plain"]], "easub": easub[t["easub"]], "ea": EADeme}
+        changed = prev is not None and any(prev[k] is not want[k] for k in case["levels"])
+        if changed and t["reuse_configs"]:
+            info["labels"].append("registry_changed_over_reused_config_objects")
+            info["nontrivial"] = True
+        prev = want
+        cfg = TreeConfig(
+            levels, MetaepochLimit(t["steps"]), get_simple_sprout(1e-9, level_limit=2),
+            options={"random_seed": t["seed"]}, config_class_to_deme_class=registry,
+        )
+        tree = DemeTree(cfg)
+        for step in range(t["steps"] + 1):
+            for lvl, deme in tree.all_demes:
+                exp = want[case["levels"][lvl]]
+                others = [c for c in plain + easub if c is not exp]
+                if not isinstance(deme, exp) or isinstance(deme, tuple(others)):
+                    vs.append(Violation(PROP, "C07/registry/deme-class-not-the-one-this-tree-registers",
+                        f"tree #{ti + 1} of the sequence (level-config objects {'reused from the earlier tree' if t['reuse_configs'] and ti else 'fresh'}), metaepoch {tree.metaepoch_count}: deme {deme.id!r} on level {lvl} is a {type(deme).__name__}, this tree's config maps {type(levels[lvl]).__name__} to {exp.__name__}"))
+            if vs:
+                return vs, info
+            if step < t["steps"]:
+                tree.run_step()
+        if len(tree.all_demes) > 1:
+            info["labels"].append("registry_tree_sprouted")
+    return vs, info
+
+
+def _registry_shard(tier, seed, shard, nshards, tally, scale):
+    n = max(3, int({"quick": 1200, "thorough": 30000}[tier] * scale / nshards))
+
+    def body(case):
+        vs, info = check_registry(case)
+        for lb in info["labels"]:
+            tally.label(lb)
+        tally.add_case(case, info["nontrivial"], sample=case)
+        return vs
+
+    return hyp_drive(PROP, registry_cases(), body, tally=tally, max_examples=n, seed=shard_seed(seed, shard, 41), kind="registry")
+
+
 def run_shard(tier, seed, shard, nshards, tally, scale=1.0):
     fs = P.run_shard(tier, seed, shard, nshards, tally, scale)
     fs += P_TIES.run_shard(tier, seed, shard, nshards, tally, scale, salt=23)
+    fs += _registry_shard(tier, seed, shard, nshards, tally, scale)
     return fs
 
 
-replay = P.replay
+def replay(case, kind=""):
+    if kind == "registry" or (isinstance(case, dict) and "trees" in case):
+        return check_registry(case)[0]
+    return P.replay(case, kind)
